@@ -2430,6 +2430,115 @@ fn trace() -> bool {
     std::env::var_os("C11_TRACE").is_some()
 }
 
+// ------------------------------------------------------------------------------------------
+// aged-node: a node that has lived through many commissionings. Local fabric indices are handed
+// out as max + 1, so after removals and re-commissionings the committed fabrics sit at indices
+// far above the number of fabrics the table can hold. Such a node restarts with all of them and
+// a factory reset leaves nothing behind.
+
+#[derive(Debug, Clone, Serialize, Deserialize)]
+struct AgedCase {
+    /// add/remove cycles before the fabrics that stay are commissioned
+    churn: u8,
+    /// fabrics that stay (1-3)
+    real: u8,
+    seed: u32,
+}
+
+fn aged_strategy() -> impl Strategy<Value = AgedCase> {
+    (
+        prop_oneof![2 => 0u8..4, 4 => 2u8..9, 2 => 9u8..60, 2 => 60u8..=248],
+        1u8..=3,
+        any::<u32>(),
+    )
+        .prop_map(|(churn, real, seed)| AgedCase { churn, real, seed })
+}
+
+fn check_aged(c: &AgedCase) -> Case {
+    use vh::sim::fabric::install;
+    let crypto = mk_crypto(c.seed);
+    let mk = |i: u8| -> Result<(FabricKit, vh::sim::fabric::Member), String> {
+        let kit = FabricKit::new(&crypto, 0xA000 + i as u64, i % 2 == 0, 112233, i).map_err(|e| format!("kit: {:?}", e.code()))?;
+        let dev = kit.device_member(&crypto, 0x2000 + i as u64).map_err(|e| format!("member: {:?}", e.code()))?;
+        Ok((kit, dev))
+    };
+    let (dummies, reals) = match (|| -> Result<_, String> {
+        let d = vec![mk(1)?, mk(2)?];
+        let mut r = Vec::new();
+        for i in 0..c.real {
+            r.push(mk(10 + i)?);
+        }
+        Ok((d, r))
+    })() {
+        Ok(x) => x,
+        Err(e) => return Case::inconclusive(e),
+    };
+    let node = Box::new(new_matter(5540));
+    // life so far: two fabrics that keep being removed and commissioned again
+    let lived: Result<(), String> = (|| {
+        let mut present: Option<core::num::NonZeroU8> = None;
+        for k in 0..=c.churn {
+            let (kit, dev) = &dummies[k as usize % 2];
+            let idx = install(&node, &crypto, &kit.ca, dev, kit.admin_node).map_err(|e| format!("install dummy: {:?}", e.code()))?;
+            if let Some(old) = present.replace(idx) {
+                node.with_state(|st| st.fabrics.remove(old)).map_err(|e| format!("remove dummy: {:?}", e.code()))?;
+            }
+        }
+        for (kit, dev) in &reals {
+            install(&node, &crypto, &kit.ca, dev, kit.admin_node).map_err(|e| format!("install: {:?}", e.code()))?;
+        }
+        if let Some(old) = present {
+            node.with_state(|st| st.fabrics.remove(old)).map_err(|e| format!("remove dummy: {:?}", e.code()))?;
+        }
+        Ok(())
+    })();
+    if let Err(e) = lived {
+        return Case::inconclusive(e);
+    }
+    let committed = fabric_tlvs(&node);
+    let top = committed.keys().copied().max().unwrap_or(0);
+    // the store of that node: every committed fabric under its key
+    let mut map: BTreeMap<u16, Vec<u8>> = BTreeMap::new();
+    for (idx, tlv) in &committed {
+        map.insert(*idx as u16, tlv.clone());
+    }
+    // restart
+    match fabrics_from_kv(&map) {
+        Err(e) => return Case::fail("aged:restart-failed", e),
+        Ok((tlvs, text)) => {
+            if tlvs != committed {
+                let missing: Vec<u8> = committed.keys().filter(|k| !tlvs.contains_key(k)).copied().collect();
+                return Case::fail(
+                    if missing.is_empty() { "aged:restarted-fabric-differs" } else { "aged:committed-fabric-missing-after-restart" },
+                    format!("committed fabric indices {:?}, after the restart {:?} (missing {missing:?}); {text:?}", committed.keys().collect::<Vec<_>>(), tlvs.keys().collect::<Vec<_>>()),
+                );
+            }
+        }
+    }
+    // factory reset
+    let kv = MemKv::from_map(map.clone());
+    let fresh = Box::new(new_matter(5540));
+    {
+        let access = fresh.kv(kv.clone());
+        if let Err(e) = fresh.startup(&access) {
+            return Case::fail("aged:restart-failed", format!("{:?}", e.code()));
+        }
+        if let Err(e) = fresh.factory_reset(&access) {
+            return Case::fail("aged:factory-reset-failed", format!("{:?}", e.code()));
+        }
+    }
+    let left: Vec<u16> = kv.snapshot().keys().copied().filter(|k| *k < rs_matter::persist::VENDOR_KEYS_START).collect();
+    if !left.is_empty() {
+        return Case::fail("factory-reset:keys-left", format!("after the factory reset of a node whose fabrics sat at indices {:?} the store still holds the keys {left:?}", committed.keys().collect::<Vec<_>>()));
+    }
+    Case::pass(top > 5).label(match top {
+        0..=5 => "top-index<=5",
+        6..=16 => "top-index-6..16",
+        17..=99 => "top-index-17..99",
+        _ => "top-index>=100",
+    })
+}
+
 fn main() {
     let mut run = Run::new(
         "C11",
@@ -2452,6 +2561,8 @@ fn main() {
     run.prop("resumption-corruption", n, corrupt_strategy, check_corruption);
     let n = run.cases(20_000, 500_000);
     run.prop("roundtrip-fabric", n, fabric_rt_strategy, check_fabric_rt);
+    let n2 = run.cases(3_000, 100_000);
+    run.prop("aged-node", n2, aged_strategy, check_aged);
     let n = run.cases(50_000, 1_000_000);
     run.prop("roundtrip-basic-info", n, basic_rt_strategy, check_basic_rt);
     let n = run.cases(30_000, 1_000_000);
